@@ -201,7 +201,9 @@ def _clauses(cc):
     else:
         r1, r2 = _norm_result(pd_["result"]), _norm_result(pl_["result"])
         if r1 != r2:
-            what = "columns" if [c[0] for c in r1] != [c[0] for c in r2] else ("dtypes" if [c[1] for c in r1] != [c[1] for c in r2] else "values")
+            n1, n2 = [c[0] for c in r1], [c[0] for c in r2]
+            # the same columns in another order is reported under its own key: a lost / invented column must never share one with it
+            what = "column_order" if (n1 != n2 and sorted(map(str, n1)) == sorted(map(str, n2))) else "columns" if n1 != n2 else ("dtypes" if [c[1] for c in r1] != [c[1] for c in r2] else "values")
             out.append(("parsed_output_equal", what, f"pandas={r1} polars={r2}"))
     parsing = bool(spec.get("coerce") or spec.get("add_missing_columns") or spec.get("strict") == "filter"
                    or any(c.get("coerce") or c.get("default") is not None for c in spec["cols"]))
